@@ -129,6 +129,6 @@ KNOWN_CLASSES = {
 }
 
 SUBCHECKS = [
-    SubCheck("permute", check, strategy=_strategy(4), budget={"quick": 900, "thorough": 12000},
+    SubCheck("permute", check, strategy=_strategy(4), budget={"quick": 2000, "thorough": 12000},
              timeout={"quick": 8, "thorough": 60}, render=lambda c: sem.render_program(c["prog"])),
 ]
